@@ -1,5 +1,4 @@
-INIT PlainInit
-NEXT Next
+SPECIFICATION Spec
 CONSTANTS
   MaxOpts = 1
   KMax = 1
